@@ -150,7 +150,7 @@ def run(chk):
                        "and at one instant around loader starts/completions, keys of mixed Go types incl. equal numbers in different types; the log is replayed by "
                        "the extracted Cache.v (every order of same-instant events of one key is a candidate history); compared: identity class of every returned "
                        "Future, job created <=> loader invocation, pair + resolution instant of every Get. Plus: shard index of typed keys vs c_shard_index; "
-                       "real-time (no faketime) stress of 8-24 concurrent Loads checked by the monitors. non-trivial = some Load shares a Future with an earlier Load")
+                       "real-time (no faketime) stress of 8-24 concurrent Loads checked by the monitors. Stream cache-dropped-while-loads-outstanding: the script drops its handle after a burst of Loads (and goes on loading through the inner object, early and after every worker has left): one loader invocation per Load, one pair per Future; when the batch's process dies each script is re-run in a process of its own and the one whose process dies is the failing input. non-trivial = some Load shares a Future with an earlier Load")
     chk.run_proof_gate(cc.PROOFS + c04s.PROOFS)
     all_corpus = pure.corpus_cases("C04")
     try:
